@@ -28,7 +28,7 @@ func init() {
 		},
 		Batches: tiered(192, 3200),
 		Run:     runC04,
-		Timeout: timeoutFor(8*time.Minute, 40*time.Minute),
+		Timeout: timeoutFor(3*time.Minute, 40*time.Minute),
 	})
 }
 
